@@ -68,6 +68,9 @@ static const int LENS2_[] = { LENS2 };    /* resize(n, const T&), resize(n, T&&)
 #ifndef OPMASK
 #define OPMASK 0xFFFFFFFFu
 #endif
+#ifndef EXPECT_OPS
+#define EXPECT_OPS 0u
+#endif
 #ifndef OPMASK0
 #define OPMASK0 OPMASK      /* operation classes offered to the FIRST solver-chosen operation (splits deep queries across cores) */
 #endif
@@ -132,7 +135,7 @@ cont_t A, B;                      /* separate global objects */
 int aliveB;
 int32_t refA[MAXN + 1], refB[MAXN + 1];
 int lenA, lenB;
-int nops;
+int nops, first_op = -1;
 #define VP_PRE(c) VP_PRE_OR(c, goto skip)
 
 static void ref_copy(int32_t *d, int *dl, const int32_t *s, int sl) { for(int i = 0; i < MAXN; i++) d[i] = s[i]; *dl = sl; }
@@ -231,6 +234,7 @@ static void finish(void);
 #define PUSHED(call) do { elem_t *p = (call); VP_ASSERT(p == c_data(&A) + lenA, "push returns a reference that is not the new last element"); refA[lenA++] = x; DONE; } while(0)
 #define U(v) ((uint32_t)(v))
 static void run_op(int depth, int op, int32_t x, int idx, int LEN) {
+	if(depth == NSCRIPT) first_op = op;
 	const unsigned MASK = depth < NSCRIPT ? 0xFFFFFFFFu : depth == NSCRIPT ? OPMASK0 : OPMASK;   /* the prefix may use every operation */
 	switch(op) {
 #if IS_VEC
@@ -323,6 +327,92 @@ static void run(int depth) {
 }
 static void finish(void) {
 	VP_WITNESS(nops < NSCRIPT + K, "the concrete prefix and K solver-chosen operations were executed");
+	/* non-vacuity per operation: every operation the shape model expects to be applicable after the prefix (-DEXPECT_OPS, bit = operation code)
+	 * must really be executed by some history; an operation that silently never runs makes the check BROKEN, not green */
+#if EXPECT_OPS & (1u << 0)
+	VP_WITNESS(first_op != 0, "a history whose first solver-chosen operation is PUSH_C runs to the end");
+#endif
+#if EXPECT_OPS & (1u << 1)
+	VP_WITNESS(first_op != 1, "a history whose first solver-chosen operation is PUSH_M runs to the end");
+#endif
+#if EXPECT_OPS & (1u << 2)
+	VP_WITNESS(first_op != 2, "a history whose first solver-chosen operation is PUSH_BACK_C runs to the end");
+#endif
+#if EXPECT_OPS & (1u << 3)
+	VP_WITNESS(first_op != 3, "a history whose first solver-chosen operation is PUSH_BACK_M runs to the end");
+#endif
+#if EXPECT_OPS & (1u << 4)
+	VP_WITNESS(first_op != 4, "a history whose first solver-chosen operation is EMPLACE runs to the end");
+#endif
+#if EXPECT_OPS & (1u << 5)
+	VP_WITNESS(first_op != 5, "a history whose first solver-chosen operation is POP runs to the end");
+#endif
+#if EXPECT_OPS & (1u << 6)
+	VP_WITNESS(first_op != 6, "a history whose first solver-chosen operation is RESIZE runs to the end");
+#endif
+#if EXPECT_OPS & (1u << 7)
+	VP_WITNESS(first_op != 7, "a history whose first solver-chosen operation is RESIZE_C runs to the end");
+#endif
+#if EXPECT_OPS & (1u << 8)
+	VP_WITNESS(first_op != 8, "a history whose first solver-chosen operation is RESIZE_M runs to the end");
+#endif
+#if EXPECT_OPS & (1u << 9)
+	VP_WITNESS(first_op != 9, "a history whose first solver-chosen operation is RESIZE_I runs to the end");
+#endif
+#if EXPECT_OPS & (1u << 10)
+	VP_WITNESS(first_op != 10, "a history whose first solver-chosen operation is CLEAR runs to the end");
+#endif
+#if EXPECT_OPS & (1u << 11)
+	VP_WITNESS(first_op != 11, "a history whose first solver-chosen operation is DETACH runs to the end");
+#endif
+#if EXPECT_OPS & (1u << 12)
+	VP_WITNESS(first_op != 12, "a history whose first solver-chosen operation is SET runs to the end");
+#endif
+#if EXPECT_OPS & (1u << 13)
+	VP_WITNESS(first_op != 13, "a history whose first solver-chosen operation is COPY_B runs to the end");
+#endif
+#if EXPECT_OPS & (1u << 14)
+	VP_WITNESS(first_op != 14, "a history whose first solver-chosen operation is ASSIGN_A_B runs to the end");
+#endif
+#if EXPECT_OPS & (1u << 15)
+	VP_WITNESS(first_op != 15, "a history whose first solver-chosen operation is ASSIGN_B_A runs to the end");
+#endif
+#if EXPECT_OPS & (1u << 16)
+	VP_WITNESS(first_op != 16, "a history whose first solver-chosen operation is SELF_ASSIGN runs to the end");
+#endif
+#if EXPECT_OPS & (1u << 17)
+	VP_WITNESS(first_op != 17, "a history whose first solver-chosen operation is MOVE_B runs to the end");
+#endif
+#if EXPECT_OPS & (1u << 18)
+	VP_WITNESS(first_op != 18, "a history whose first solver-chosen operation is MASSIGN_A_B runs to the end");
+#endif
+#if EXPECT_OPS & (1u << 19)
+	VP_WITNESS(first_op != 19, "a history whose first solver-chosen operation is MASSIGN_B_A runs to the end");
+#endif
+#if EXPECT_OPS & (1u << 20)
+	VP_WITNESS(first_op != 20, "a history whose first solver-chosen operation is SWAP runs to the end");
+#endif
+#if EXPECT_OPS & (1u << 21)
+	VP_WITNESS(first_op != 21, "a history whose first solver-chosen operation is CTOR_B runs to the end");
+#endif
+#if EXPECT_OPS & (1u << 22)
+	VP_WITNESS(first_op != 22, "a history whose first solver-chosen operation is DTOR_B runs to the end");
+#endif
+#if EXPECT_OPS & (1u << 23)
+	VP_WITNESS(first_op != 23, "a history whose first solver-chosen operation is PUSH_B runs to the end");
+#endif
+#if EXPECT_OPS & (1u << 24)
+	VP_WITNESS(first_op != 24, "a history whose first solver-chosen operation is CTORN_A runs to the end");
+#endif
+#if EXPECT_OPS & (1u << 25)
+	VP_WITNESS(first_op != 25, "a history whose first solver-chosen operation is CTORN_B runs to the end");
+#endif
+#if EXPECT_OPS & (1u << 26)
+	VP_WITNESS(first_op != 26, "a history whose first solver-chosen operation is CTORDEF_A runs to the end");
+#endif
+#if EXPECT_OPS & (1u << 27)
+	VP_WITNESS(first_op != 27, "a history whose first solver-chosen operation is CTORDEF_B runs to the end");
+#endif
 	/* end of scope: owners are destroyed; nothing they created may remain alive or allocated (C16) */
 	if(aliveB) { c_dtor(&B); aliveB = 0; }
 	c_dtor(&A);
